@@ -9,6 +9,8 @@
 #include "wire_iface.h"
 #include "wire_l2.h"
 #include "wire_ip.h"
+#include "wire_ip6.h"
+#include "wire_icmp.h"
 #include "wire_transport.h"
 #include "wire_app.h"
 #include "wire_wifi.h"
@@ -72,7 +74,7 @@ static std::string layer_dump(const PDU& p) {
         const RawPDU& r = static_cast<const RawPDU&>(p);
         f = "payload=" + vh::to_hex(r.payload());
     }
-    else if (!(l2_dump(p, f) || ip_dump(p, f) || transport_dump(p, f) || app_dump(p, f) || wifi_dump(p, f))) {
+    else if (!(l2_dump(p, f) || ip_dump(p, f) || ip6_dump(p, f) || icmp_dump(p, f) || transport_dump(p, f) || app_dump(p, f) || wifi_dump(p, f))) {
         f = "?";
     }
     std::ostringstream o;
@@ -104,7 +106,7 @@ static std::string sweep(const PDU& top) {
     std::string out;
     for (const PDU* p = &top; p; p = p->inner_pdu()) {
         std::string s;
-        if (l2_sweep(*p, s) || ip_sweep(*p, s) || transport_sweep(*p, s) || app_sweep(*p, s) || wifi_sweep(*p, s)) {
+        if (l2_sweep(*p, s) || ip_sweep(*p, s) || ip6_sweep(*p, s) || icmp_sweep(*p, s) || transport_sweep(*p, s) || app_sweep(*p, s) || wifi_sweep(*p, s)) {
             if (!out.empty()) out += ",";
             out += s;
         }
@@ -208,6 +210,8 @@ int main() {
             } else {
                 PDU* r = l2_mk(w[1], args);
                 if (!r) r = ip_mk(w[1], args);
+                if (!r) r = ip6_mk(w[1], args);
+                if (!r) r = icmp_mk(w[1], args);
                 if (!r) r = transport_mk(w[1], args);
                 if (!r) r = app_mk(w[1], args);
                 if (!r) r = wifi_mk(w[1], args);
@@ -232,7 +236,7 @@ int main() {
                 static_cast<RawPDU*>(p)->payload(RawPDU::payload_type(b.begin(), b.end()));
                 return "ok";
             }
-            if (l2_apply(*p, op) || ip_apply(*p, op) || transport_apply(*p, op) || app_apply(*p, op) || wifi_apply(*p, op))
+            if (l2_apply(*p, op) || ip_apply(*p, op) || ip6_apply(*p, op) || icmp_apply(*p, op) || transport_apply(*p, op) || app_apply(*p, op) || wifi_apply(*p, op))
                 return "ok";
             return "bad-op";
         }
